@@ -334,7 +334,8 @@ func (view *View) Select(ctx context.Context, scope *ReferenceScope, clause pars
 
 					for _, c := range columns {
 						cref := c.(parser.FieldReference)
-						if cref.View.Literal != viewName {
+						if !strings.EqualFold(cref.View.Literal, viewName) {
+							// table names and aliases are not case-sensitive (T.id finds the column of t)
 							continue
 						}
 
